@@ -7,7 +7,7 @@ META = {
 }
 LEVEL = "exploration"
 BUDGET = {"quick": 40, "thorough": 300}
-SHARDS = {"quick": 1, "thorough": 8}
+SHARDS = {"quick": 1, "thorough": 12}
 
 import re
 from vf import env  # noqa
@@ -89,6 +89,7 @@ def single_headers(L, seg):
             if b >= a:
                 out.append(("bytes=%d-%d" % (a, b), "first-last"))
         out.append(("bytes=%d-" % a, "open-ended"))
+    out.append(("bytes=00-0%d" % max(L - 1, 0), "first-last"))      # 1*DIGIT: leading zeros are valid syntax
     out.append(("bytes=%d-" % BIG, "open-ended"))
     out.append(("bytes=%d-%d" % (BIG, BIG + 1), "first-last"))
     for n in sorted(set([0, 1, 2, L // 2, L - 1, L, L + 1, seg, seg + 1, BIG])):
@@ -112,7 +113,7 @@ def invalid_headers(L):
             ("bytess=0-1", "other-unit"), ("=0-1", "other-unit")]
     garb = [("bytes=", "garbage"), ("bytes", "garbage"), ("bytes=-", "garbage"), ("bytes=a-b", "garbage"),
             ("bytes=0x1-0x2", "garbage"), ("bytes=1.5-2", "garbage"), ("bytes=5", "garbage"), ("bytes=1-2-3", "garbage"),
-            ("bytes=--5", "garbage"), ("bytes=0-1;q=1", "garbage"), ("bytes=0-1,", "garbage"), ("bytes=,0-1", "garbage"),
+            ("bytes=--5", "garbage"), ("bytes=0-1;q=1", "garbage"),
             ("bytes=0-1,x", "garbage"), ("bytes=0-1 2-3", "garbage"), ("bytes=1e1-", "garbage"), ("0-5", "garbage"),
             ("bytes=-5-", "garbage"), ("bytes==0-5", "garbage"), ("bytes=0–" "5".encode("utf-8").decode("latin-1"), "garbage")]
     return inv, unit, garb
@@ -124,7 +125,8 @@ def lenient_headers(L):
     return [("bytes=+%d-%d" % (a, a + 3), "lenient"), ("bytes= %d-%d" % (a, a + 3), "lenient"), ("bytes=%d -%d" % (a, a + 3), "lenient"),
             ("bytes=%d- %d" % (a, a + 3), "lenient"), ("bytes=-+2", "lenient"), ("bytes=- 2", "lenient"), ("bytes=0-1_0", "lenient"),
             ("Bytes=0-1", "lenient"), ("BYTES=0-1", "lenient"), ("bytes =0-1", "lenient"), ("bytes=+%d-" % L, "lenient"),
-            ("bytes=00-01", "lenient-leading-zero"), ("bytes=0-١".encode("utf-8").decode("latin-1"), "lenient")]
+            ("bytes=0-1,", "lenient-empty-list-element"), ("bytes=,0-1", "lenient-empty-list-element"),   # RFC 7230 7: MAY be accepted
+            ("bytes=0-١".encode("utf-8").decode("latin-1"), "lenient")]
 
 
 def multi_headers(L):
@@ -149,7 +151,7 @@ def run(ck):
         small = list(range(0, 301))
     else:
         pool = [0, 1, 2, 3, 54, 55, 56, 57, 63, 64, 65, 127, 128, 129, 130, 192, 193, 255, 256, 257, 299, 300]
-        small = sorted(set([0, 1, 55, 56, 300] + rng.sample(pool, 7) + [rng.randrange(0, 301) for _ in range(4)]))
+        small = sorted(set([0, 1, 55, 56, 300] + rng.sample(pool, 10) + [rng.randrange(0, 301) for _ in range(5)]))
     plan = []
     for L in small:
         for enc in ("imm", "SDMF", "MDMF"):
@@ -194,6 +196,9 @@ def _one_grid(ck, gi, grp, thorough):
     try:
         c = g.make_client(k=k, happy=1, n=crng.choice([k, k + 2]), max_segment_size=seg)
         stub = web.mount(g, c)
+        bigseg = crng.choice([1024, 4096, 4096, 8192])
+        cbig = g.make_client(k=k, happy=1, n=k + 1, max_segment_size=bigseg)     # larger files: sane segment size
+        stubbig = web.mount(g, cbig)
         st, dn = g.wait(c.create_dirnode())
         dircap = dn.get_uri() if st == "ok" else None
         for fi, (enc, L, cls) in enumerate(grp):
@@ -205,7 +210,10 @@ def _one_grid(ck, gi, grp, thorough):
             if L > 4096:
                 data = (data * (L // 4096 + 1))[:L]
                 data = bytes(b ^ ((i >> 12) & 0xFF) for i, b in enumerate(data)) if L < 50000 else data
-            _one_file(ck, g, c, stub, web, frng, enc, L, data, cls, seg if enc == "imm" else 131072, dircap, thorough)
+            if cls == "big":
+                _one_file(ck, g, cbig, stubbig, web, frng, enc, L, data, cls, bigseg if enc == "imm" else 131072, dircap, thorough)
+            else:
+                _one_file(ck, g, c, stub, web, frng, enc, L, data, cls, seg if enc == "imm" else 131072, dircap, thorough)
     finally:
         g.close()
 
@@ -323,8 +331,7 @@ def _judge(ck, g, stub, web, method, url, h, hform, data, ctx):
         m = _CR.match(cr or "")
         ck.mon("content-range")
         if not m:
-            V("suffix-range-empty-file" if (L == 0 and exp[0] == "unsat-or-full") else "content-range-malformed",
-              "206 with Content-Range %r" % cr)
+            V("suffix-range-empty-file" if L == 0 else "content-range-malformed", "206 with Content-Range %r" % cr)
             return False
         f, l, tot = int(m.group(1)), int(m.group(2)), int(m.group(3))
         if tot != L:
@@ -354,7 +361,7 @@ def _judge(ck, g, stub, web, method, url, h, hform, data, ctx):
         if clen is not None and int(clen) != L:
             V("content-length-wrong", "200 with Content-Length %r for a %d-byte file" % (clen, L))
         if cr is not None:
-            V("content-range-on-200", "200 response carries Content-Range %r" % cr)
+            ck.observe("content-range-on-200")
         if not is_head:
             ck.mon("full-body")
             if body != data:
@@ -363,7 +370,8 @@ def _judge(ck, g, stub, web, method, url, h, hform, data, ctx):
 
     if is_head:
         ck.mon("head-no-body")
-        if body != b"" or (last.get("resource_wrote") or 0) > 0:
+        # error pages (416, 4xx) are rendered by generic code and dropped by twisted.web: only file content counts
+        if body != b"" or (st in (200, 206) and (last.get("resource_wrote") or 0) > 0):
             V("head-produces-body", "HEAD: client saw %d body bytes; the resource wrote %d body bytes to the request "
               "(twisted.web discards them, the download work is done nevertheless)" % (len(body), last.get("resource_wrote") or 0))
 
@@ -388,6 +396,8 @@ def _judge(ck, g, stub, web, method, url, h, hform, data, ctx):
         elif hform == "open-ended":
             V("open-ended-range-at-eof", "status %s (%s), range starts at or beyond the end: 416 expected" % (
                 st, "full file" if (st == 200 and (is_head or body == data)) else "body %d bytes" % len(body)))
+        elif hform == "suffix":
+            V("zero-length-suffix-range-not-416", "status %s with Content-Range %r; a suffix range of length 0 selects nothing: 416 expected" % (st, cr))
         else:
             V("unsatisfiable-range-not-416", "status %s with Content-Range %r, range starts at or beyond the end: 416 expected" % (st, cr))
     elif exp[0] == "unsat-or-full":
